@@ -203,13 +203,13 @@ func (c *SchemaCase) runImpl() string {
 		return c.ID + " out=" + outcome
 	}
 	if ferr != nil {
-		return fmt.Sprintf("%s out=err same=%d", c.ID, same)
+		return fmt.Sprintf("%s out=err law_same=%d", c.ID, same)
 	}
 	d, err := parseDoc(first)
 	if err != nil {
 		return c.ID + " out=badjson"
 	}
-	return fmt.Sprintf("%s out=ok same=%d doc=%s order=%s", c.ID, same, canonDoc(d), propertyOrders(c.S, d))
+	return fmt.Sprintf("%s out=ok law_same=%d doc=%s order=%s", c.ID, same, canonDoc(d), propertyOrders(c.S, d))
 }
 
 func init() {
@@ -223,16 +223,10 @@ func init() {
 	}
 }
 
+// shapeOfSchema hashes the harness's own rendering of the value: no call into the package
+// may happen between constructing a case and rendering / snapshotting it.
 func shapeOfSchema(s *js.Schema) string {
-	bs, err := json.Marshal(s)
-	if err != nil {
-		return "err"
-	}
-	d, err := parseDoc(bs)
-	if err != nil {
-		return "bad"
-	}
-	return fmt.Sprintf("%x", fnv(shapeOf(d)+string(bs)))
+	return fmt.Sprintf("%x", fnv(sxSchema(s)))
 }
 func fnv(s string) uint32 {
 	h := uint32(2166136261)
